@@ -1,0 +1,33 @@
+//go:build verif
+
+// Contracts checked by /verif/govc (comment-only file; see /verif/DESIGN.md, property C04).
+package cl
+
+//@ # The for statement that a range expression in statement position is lowered to:
+//@ #     for v [, _gop_end] [, _gop_step] := first|0, last [, step]; v < end'; v += step' { body }
+//@ # (end' / step' are the operand itself when it is an identifier or literal, else the fresh _gop_end / _gop_step).
+//@ pred simpleOperand(e ast.Expr) := istype(e, *ast.Ident) || istype(e, *ast.BasicLit)
+//@ pred isLit(e ast.Expr, k token.Token, v string) := istype(e, *ast.BasicLit) && e.(*ast.BasicLit) != nil && e.(*ast.BasicLit).Kind == k && e.(*ast.BasicLit).Value == v
+//@ pred isIdentNamed(e ast.Expr, name string) := istype(e, *ast.Ident) && e.(*ast.Ident) != nil && e.(*ast.Ident).Name == name
+//@
+//@ func toForStmt
+//@   requires re != nil && body != nil && re.Last != nil
+//@   requires istype(value, *ast.Ident) ==> value.(*ast.Ident) != nil
+//@   assigns body.List
+//@   ensures [shape] result != nil && fresh(result) && istype(result.Init, *ast.AssignStmt) && istype(result.Cond, *ast.BinaryExpr) && istype(result.Post, *ast.AssignStmt)
+//@   ensures [cond-op] result.Cond.(*ast.BinaryExpr).Op == token.LSS
+//@   ensures [post-op] result.Post.(*ast.AssignStmt).Tok == token.ADD_ASSIGN
+//@   ensures [same-variable] len(result.Init.(*ast.AssignStmt).Lhs) >= 1 && len(result.Post.(*ast.AssignStmt).Lhs) == 1 &&
+//@             result.Cond.(*ast.BinaryExpr).X == result.Init.(*ast.AssignStmt).Lhs[0] &&
+//@             result.Post.(*ast.AssignStmt).Lhs[0] == result.Init.(*ast.AssignStmt).Lhs[0]
+//@   ensures [start] len(result.Init.(*ast.AssignStmt).Rhs) == len(result.Init.(*ast.AssignStmt).Lhs) &&
+//@             (re.First != nil ? result.Init.(*ast.AssignStmt).Rhs[0] == re.First : isLit(result.Init.(*ast.AssignStmt).Rhs[0], token.INT, "0"))
+//@   ensures [end-direct] simpleOperand(re.Last) ==> result.Cond.(*ast.BinaryExpr).Y == re.Last
+//@   ensures [end-temp] !simpleOperand(re.Last) ==> isIdentNamed(result.Cond.(*ast.BinaryExpr).Y, "_gop_end") &&
+//@             len(result.Init.(*ast.AssignStmt).Lhs) >= 2 && result.Init.(*ast.AssignStmt).Lhs[1] == result.Cond.(*ast.BinaryExpr).Y &&
+//@             result.Init.(*ast.AssignStmt).Rhs[1] == re.Last
+//@   ensures [step-default] len(result.Post.(*ast.AssignStmt).Rhs) == 1 && (re.Expr3 == nil ==> isLit(result.Post.(*ast.AssignStmt).Rhs[0], token.INT, "1"))
+//@   ensures [step-direct] re.Expr3 != nil && simpleOperand(re.Expr3) ==> result.Post.(*ast.AssignStmt).Rhs[0] == re.Expr3
+//@   ensures [step-temp] re.Expr3 != nil && !simpleOperand(re.Expr3) ==> isIdentNamed(result.Post.(*ast.AssignStmt).Rhs[0], "_gop_step") &&
+//@             result.Init.(*ast.AssignStmt).Rhs[len(result.Init.(*ast.AssignStmt).Rhs)-1] == re.Expr3 &&
+//@             result.Init.(*ast.AssignStmt).Lhs[len(result.Init.(*ast.AssignStmt).Lhs)-1] == result.Post.(*ast.AssignStmt).Rhs[0]
